@@ -411,9 +411,36 @@ impl Scenario for Mask {
                     self.setup[0] = Op::create_table(d2.clone());
                     let mut start = 0i64;
                     let mut left = self.sw.big_rows;
+                    // sparse columns (Columnar): NULL in a long prefix or suffix of the stored rows, values
+                    // only elsewhere (the shape an ALTER TABLE ADD COLUMN on a populated table leaves)
+                    let total = self.sw.big_rows;
+                    let sparse: Vec<(usize, usize)> = d2
+                        .cols
+                        .iter()
+                        .enumerate()
+                        .map(|(i, _)| {
+                            if self.mode != Mode::Columnar || d2.pk.contains(&i) || !rng.chance(1, 2) {
+                                (0, total)
+                            } else if rng.chance(2, 3) {
+                                (100 + rng.usize(total.saturating_sub(100).max(1)), total)
+                            } else {
+                                (0, rng.usize(total / 2 + 1))
+                            }
+                        })
+                        .collect();
                     while left > 0 {
                         let k = left.min(400);
-                        self.setup.push(gen_bulk_insert(rng, &self.sw, &d2, start, k));
+                        let mut op = gen_bulk_insert(rng, &self.sw, &d2, start, k);
+                        for (ri, row) in op.rows.iter_mut().enumerate() {
+                            let pos = start as usize + ri;
+                            for (ci, (from, to)) in sparse.iter().enumerate() {
+                                if pos < *from || pos >= *to {
+                                    row[ci] = Lit::Null;
+                                }
+                            }
+                        }
+                        let op = Op::insert(&d2.name, &[], op.rows);
+                        self.setup.push(op);
                         start += k as i64;
                         left -= k;
                     }
